@@ -43,6 +43,10 @@ def build_plan(spec, world):
     shared = [world.new_group(rng.choice(kinds)) for _ in range(rng.choice([1, 2, 3]))]
     if rng.random() < 0.25:
         shared.append(world.new_group('broken'))
+    sib = None
+    if rng.random() < 0.5:
+        sib = len(shared)
+        shared.append(world.new_group('siblings'))
     if fl in ('sig', 'mixed'):
         shared.append(world.new_group(rng.choice(['directive', 'directive_closure'])))
     for g in shared:
@@ -78,10 +82,16 @@ def build_plan(spec, world):
                     same = private[t].twin
                     prog.append(('reload', same)); alive = True
                 continue
+            if sib is not None and rng.random() < 0.15:
+                opt = rng.choice([o for o in opts if o[2]] or [W.BASE_OPT])
+                prog.append(('pair', sib, opt, 'to_graph' if (opt[1] and rng.random() < 0.6) else 'actual'))
+                continue
             if t in private and alive and x < 0.45:
                 gi, g = 'p', private[t]
             else:
                 gi = rng.randrange(len(shared)); g = shared[gi]
+                if g.kind == 'siblings':
+                    gi = 0; g = shared[0]
             nf = {'closure': 5, 'loop': 4, 'directive': 2, 'directive_closure': 2, 'method': 3, 'lambda': 2,
                   'broken': 2}[g.kind]
             fi = rng.randrange(nf)
@@ -118,6 +128,9 @@ def run_history(spec):
                 for j, act in enumerate(progs[t]):
                     if act[0] == 'drop':
                         private[t].drop()
+                    elif act[0] == 'pair':
+                        where = {'thread': t, 'index': j, 'req_pos': len(rec.requests.get(t, []))}
+                        W.do_pair(world, shared[act[1]], act[2], act[3], verdicts, where)
                     elif act[0] == 'reload':
                         g = private[t]
                         if not act[1]:
@@ -210,6 +223,11 @@ def package(spec, rec, verdicts, errors, wall):
     not_inst = [[t, j] for t in range(nthreads) for j, r in enumerate(rec.requests.get(t, []))
                 if r['outcome'] == 'ok' and not r.get('ret_is_inst')]
     paths['error'] = sum(1 for os_ in outcomes for o in os_ if o != 'ok')
+    for t in range(nthreads):
+        for j, r in enumerate(rec.requests.get(t, [])):
+            if r.get('bind_err'):
+                verdicts.append({'what': r['bind_err'], 'thread': t, 'index': -1, 'req_pos': j, 'code': r['code'],
+                                 'opt': [r['opt'][0], r['opt'][1], r['opt'][2], list(r['opt'][3])]})
     keys = {}
     for t in range(nthreads):
         for r in rec.requests.get(t, []):
@@ -271,6 +289,11 @@ def run_witness(name):
                     req(f, uF, 'converted_call', j=0); req(f, j=1); req(f, W.BASE_OPT, 'convert', j=2)
                 else:
                     req(f, j=0); req(f, uF, 'converted_call', j=1); req(f, uF, 'actual', j=2)
+            elif name == 'siblings-diverge':
+                g = world.new_group('siblings', {'g': 2, 'c': 1})
+                g.load()
+                for j, (o, rt) in enumerate([(W.BASE_OPT, 'to_graph'), (W.BASE_OPT, 'actual'), ((True, False, True, ()), 'actual')]):
+                    W.do_pair(world, g, o, rt, verdicts, {'thread': 0, 'index': j, 'req_pos': len(rec.requests.get(0, []))})
             elif name == 'equal-twice':
                 # exec the same source twice: c1 == c2, c1 is not c2
                 g1 = world.new_group('closure', {'g': 3, 'c': 2, 'd': 4}, name='tw')
@@ -330,7 +353,7 @@ def run_witness(name):
 WITNESSES = {
     'sig-globals': CLS_SIG, 'sig-closure': CLS_SIG, 'sig-reverse': None,
     'equal-twice': CLS_EQ, 'equal-keyerror': CLS_EQ, 'equal-annotations': CLS_EQ,
-    'ureq-callee-first': None, 'ureq-direct-first': None, 'ureq-call-then-graph': None, 'ureq-graph-then-call': None,
+    'siblings-diverge': None, 'ureq-callee-first': None, 'ureq-direct-first': None, 'ureq-call-then-graph': None, 'ureq-graph-then-call': None,
 }
 
 
